@@ -122,6 +122,8 @@ package impl
 //@   ensures len(input) > 1 ==> err != nil
 //@   ensures len(input) == 1 && len(args) > 1 ==> is(err, ErrWrongArity)
 //@   ensures len(input) == 1 && len(args) == 0 && isNum(input[0]) ==> err == nil && len(res) == 1 && res[0] == mkDec(real(roundHA(numOf(input[0]))))
+// C07: a precision argument that evaluates to empty never produces a value
+//@   ensures len(input) == 1 && len(args) == 1 && evalErr(args[0], ctx.ExternalConstants, ctx.Now, input) == nil && len(evalRes(args[0], ctx.ExternalConstants, ctx.Now, input)) == 0 ==> err != nil || len(res) == 0
 //@   assigns ctx.LastResult, ctx.BeforeLastResult
 //
 // powInt32: the exact integer power when it fits an int32 (ok), otherwise !ok; terminates.
